@@ -261,11 +261,11 @@ async fn apply(w: &mut World, mgr: &Arc<Mgr>, ev: &Value) -> (bool, Option<Value
             // a Pending record: make the wall-clock age equal the virtual age (whole seconds)
             if let Some(Reply::State(Some((raw, gen, t)))) = &reply {
                 if let DsVal::Pending { att, .. } = parse_dsval(raw) {
-                    let elapsed_ms = proc_ms.saturating_sub(*t);
                     while wall().subsec_millis() > 900 { std::thread::sleep(Duration::from_millis(5)); }
                     let wsec = wall().as_secs();
                     w.skew_guard.insert(hi_, wsec);
-                    let secs = wsec.saturating_sub(elapsed_ms / 1000);
+                    // an attempt dated in the past ages by the virtual time elapsed; one dated in the future stays ahead of the clock
+                    let secs = if proc_ms >= *t { wsec.saturating_sub((proc_ms - *t) / 1000) } else { wsec + (*t - proc_ms) / 1000 };
                     let raw2 = json!({"Pending": {"attempt_id": att, "attempt_time_seconds": secs}}).to_string();
                     reply = Some(Reply::State(Some((raw2, *gen, *t))));
                 }
@@ -527,7 +527,14 @@ pub fn run_case(case: &Value) -> Value {
             let h = w.hashes[it["h"].as_u64().unwrap() as usize].clone();
             let mut n = node.lock().unwrap();
             let hn = n.hashes.entry(h).or_default();
-            if let Some(s) = it.get("state") { hn.state = Some((s["raw"].as_str().unwrap().to_string(), s["gen"].as_u64().unwrap_or(0), 0)); }
+            if let Some(s) = it.get("state") {
+                // {"raw": ..., "gen": g} or {"pending_t_ms": virtual time the attempt is dated, "gen": g}
+                let (raw, t) = match s.get("pending_t_ms").and_then(|t| t.as_u64()) {
+                    Some(t) => (json!({"Pending": {"attempt_id": "init", "attempt_time_seconds": 0}}).to_string(), t),
+                    None => (s["raw"].as_str().unwrap().to_string(), 0),
+                };
+                hn.state = Some((raw, s["gen"].as_u64().unwrap_or(0), t));
+            }
             for p in it.get("parts").and_then(|p| p.as_array()).cloned().unwrap_or_default() {
                 let st = match p.as_str().unwrap() { "pend" => PStat::Pend, "fail" => PStat::Failed(203), _ => PStat::Done(world::preimage(0)) };
                 let k = hn.parts.len() as u64;
